@@ -302,7 +302,7 @@ def run_one_path(ex, world, fn, c):
         if c.witness is not None:
             from .concrete import clause_namespace, ceval
 
-            ns = clause_namespace(world)
+            ns = {**{k: v for k, v in fn.globals.items() if not k.startswith("__")}, **clause_namespace(world)}
             ns.update({g: fn.globals[g] for g in c.abstract_globals})
             ok = all(bool(ceval(r, ns, c.witness)) for r in c.requires)
             p.obligations.append(Obligation(f"{ex.prefix}/cover-pre[witness]", "cover", [], z3.BoolVal(ok), expect="sat"))
